@@ -15,7 +15,7 @@ Variable c : n3cfg.
 Definition hashn (n : name) : bytes := nsec3_hash H n (c_iters c) (c_salt c).
 
 Lemma hashn_eq a b : name_eqb a b = true -> hashn a = hashn b.
-Proof. intros E. apply name_eqb_spec in E. unfold hashn, nsec3_hash. rewrite E. reflexivity. Qed.
+Proof. intros E. unfold hashn. apply nsec3_hash_case_insensitive. exact E. Qed.
 
 Definition incl3 (excl : bool) (gc : group * bool) : bool :=
   negb (excl && snd gc && negb (memN rt_DS (snd (fst gc)))).
